@@ -23,6 +23,7 @@ class Spec:
     sel: Optional[Tuple[str, Tuple[Tuple[str, Tuple[str, ...]], ...]]] = None  # (selector source, ((value,(deps..)),..))
     ifcreate: Tuple[str, ...] = ()      # watched paths: ifchange when present, ifcreate when absent
     ifcreate_raw: Tuple[str, ...] = ()  # unconditional redo-ifcreate (an error when the path exists)
+    raw_prefix: str = ""                # how the script spells those paths: this in front (e.g. "nosuch/../")
     fail: Optional[str] = None          # flag source: script exits 7 when it contains "1"
     out: str = "stdout"                 # stdout | file ($3) | append (two appends to $3: one before the dependencies, one after)
     proj: bool = False                  # map 1->0 in consumed content
@@ -225,7 +226,7 @@ def script_text(spec: Spec, variant: int, dofile: str, gates: bool = False) -> s
         kp()
     for w in spec.ifcreate_raw:
         w = w.replace("%", "$2")
-        L.append(f'redo-ifcreate "{w}" || {{ rc=$?; echo "R $rv_n $rc" >> "$RV_TRACE"; exit $rc; }}')
+        L.append(f'redo-ifcreate "{spec.raw_prefix}{w}" || {{ rc=$?; echo "R $rv_n $rc" >> "$RV_TRACE"; exit $rc; }}')
         L.append('c="$c~"')
         kp()
     for i, (cmd, names) in enumerate(spec.seq):
@@ -375,6 +376,10 @@ def curated() -> Dict[str, World]:
     W["ifcreate-raw"] = World(   # (the watched path may also come into existence as a directory)
         "ifcreate-raw", {"f": ["0", "1", "<dir>"], "u": ["0", "1"]},
         {"t.do": [S(ifcreate_raw=["f"], deps=["u"])], "top.do": [S(deps=["t"], out="file")]},
+        ["top", "t"], ["top", "t"], absent=["f"])
+    W["ifcreate-raw-dots"] = World(   # the same, the watched path spelled through a directory that does not exist (nosuch/../f)
+        "ifcreate-raw-dots", {"f": ["0", "1"], "u": ["0", "1"]},
+        {"t.do": [S(ifcreate_raw=["f"], raw_prefix="nosuch/../", deps=["u"])], "top.do": [S(deps=["t"], out="file")]},
         ["top", "t"], ["top", "t"], absent=["f"])
     W["always3"] = World(
         "always3", {"s": ["0", "1"]},
